@@ -1,0 +1,41 @@
+//go:build verif
+
+package nathole
+
+import "github.com/fatedier/frp/pkg/msg"
+
+// Accessors for the verification harness (property C20).  Compiled only with -tags verif.
+
+// VerifGetRangePorts exposes getRangePorts.
+func VerifGetRangePorts(addrs []string, difference, maxNumber int) []msg.PortsRange {
+	return getRangePorts(addrs, difference, maxNumber)
+}
+
+// VerifSessionIDs returns the ids of the sessions currently in the controller's table.
+func (c *Controller) VerifSessionIDs() []string {
+	c.mu.RLock()
+	defer c.mu.RUnlock()
+	ids := make([]string, 0, len(c.sessions))
+	for sid := range c.sessions {
+		ids = append(ids, sid)
+	}
+	return ids
+}
+
+// VerifClientNames returns the names registered with ListenClient and not yet closed.
+func (c *Controller) VerifClientNames() []string {
+	c.mu.RLock()
+	defer c.mu.RUnlock()
+	names := make([]string, 0, len(c.clientCfgs))
+	for n := range c.clientCfgs {
+		names = append(names, n)
+	}
+	return names
+}
+
+// VerifRecordCount returns the number of address-pair records the analyzer holds.
+func (c *Controller) VerifRecordCount() int {
+	c.analyzer.mu.Lock()
+	defer c.analyzer.mu.Unlock()
+	return len(c.analyzer.records)
+}
